@@ -42,6 +42,8 @@ class Verifier(Engine):
         c = self.contract
         args = self.fi.node.args
         names = [a.arg for a in args.args] + [a.arg for a in args.kwonlyargs]
+        if args.kwarg is not None:
+            names.append(args.kwarg.arg)
         for nm in names:
             if nm == "self":
                 continue
@@ -711,6 +713,9 @@ class Verifier(Engine):
             st.frames[i].vars[nm] = nv
             for x in cs:
                 st.assume(x)
+            for oid, fl in self._pending_objects:      # a fresh object stands for "some object"
+                st.heap[oid] = fl
+            self._pending_objects = []
         flds = set(fields)
         if has_yield and "g" in st.heap:
             assigned = self.ghost_assigned()
